@@ -1,1 +1,89 @@
-fn main(){}
+//! chk: all checks except C20 (chk-serde) and the rustls half of C12 (chk-rustls).
+//!   chk <ID> quick|thorough
+//!   chk <ID> --replay <file>
+//!   chk --child <kind> ...          (process-isolated workers, see isolate)
+
+use serde_json::Value;
+use vcore::runner::*;
+
+mod c01;
+mod c16;
+
+pub struct CheckDef {
+    pub id: &'static str,
+    pub level: &'static str,
+    pub run: fn(&Ctx),
+    pub replay: fn(&Ctx, &str, &Value) -> Judge,
+}
+
+fn checks() -> Vec<CheckDef> {
+    vec![
+        CheckDef { id: "C01", level: "exploration", run: c01::run_c01, replay: c01::replay_c01 },
+        CheckDef { id: "C03", level: "exploration", run: c01::run_c03, replay: c01::replay_c03 },
+        CheckDef { id: "C16", level: "exploration", run: c16::run, replay: c16::replay },
+    ]
+}
+
+fn main() {
+    let args: Vec<String> = std::env::args().collect();
+    install_silent_panic_hook();
+    if args.len() < 3 {
+        eprintln!("usage: chk <ID> quick|thorough | chk <ID> --replay <file>");
+        std::process::exit(2);
+    }
+    let id = args[1].as_str();
+    let def = match checks().into_iter().find(|c| c.id == id) {
+        Some(d) => d,
+        None => {
+            eprintln!("unknown check {id}");
+            std::process::exit(2);
+        }
+    };
+    match args[2].as_str() {
+        "quick" | "thorough" => {
+            let tier = if args[2] == "quick" { Tier::Quick } else { Tier::Thorough };
+            let ctx = Ctx::new(id, tier, def.level);
+            (def.run)(&ctx);
+            std::process::exit(ctx.finish());
+        }
+        "--replay" => {
+            let path = args.get(3).expect("--replay <file>");
+            let doc: Value = match std::fs::read_to_string(path).ok().and_then(|s| serde_json::from_str(&s).ok()) {
+                Some(d) => d,
+                None => {
+                    eprintln!("cannot read replay file {path}");
+                    std::process::exit(2);
+                }
+            };
+            let mut ctx = Ctx::new(id, Tier::Quick, def.level);
+            ctx.replay_mode = true;
+            let sub = doc.get("check").and_then(|v| v.as_str()).unwrap_or("").to_string();
+            let case = doc.get("case").cloned().unwrap_or(Value::Null);
+            let r = match catch(|| (def.replay)(&ctx, &sub, &case)) {
+                Ok(r) => r,
+                Err(p) => Err(Fail::new(format!("harness-or-library-{}", panic_sig(&p)), format!("uncaught panic while judging: {p}"))),
+            };
+            match r {
+                Ok(()) => {
+                    println!("replay {path}: case passes");
+                    std::process::exit(0);
+                }
+                Err(f) => {
+                    if let Some(k) = ctx.is_known(&f.sig) {
+                        println!("KNOWN-FINDING: property={} {} [signature {}]", id, k.what, k.signature);
+                        println!("    {}", f.msg);
+                        std::process::exit(0);
+                    }
+                    println!("--- {id} / {sub}: {}", f.sig);
+                    println!("    {}", f.msg);
+                    println!("VIOLATION property={id} replay={path}");
+                    std::process::exit(1);
+                }
+            }
+        }
+        other => {
+            eprintln!("unknown mode {other}");
+            std::process::exit(2);
+        }
+    }
+}
